@@ -1,2 +1,3 @@
 import OASDriver.Basic
+import OASDriver.LinAlg
 import OASDriver.Ops
